@@ -34,7 +34,7 @@ package fox
 //@   requires safety-wf: heapWF()
 //@   -- a recording walk starts with an empty parameter list: the saved parameter counts are absolute positions in it
 //@   requires params-empty: !lazy ==> len(*c.params) == 0
-//@   modifies C[Params], C[skippedNodes], E[Param], E[skippedNode], released
+//@   modifies C[Params], C[skippedNodes], E[Param], E[skippedNode], released, poolOut
 //@   assume-at after (*Pool).Get#1 : pool-discipline: dyntypeIs(call_result, *cTx) && ctxOf(call_result) != nil && ctxOf(call_result) != c && ctxOf(call_result).params != nil && ctxOf(call_result).tsrParams != nil && ctxOf(call_result).skipNds != nil && ctxOf(call_result).params != ctxOf(call_result).tsrParams && ctxOf(call_result).params != c.params && ctxOf(call_result).params != c.tsrParams && ctxOf(call_result).tsrParams != c.params && ctxOf(call_result).tsrParams != c.tsrParams && ctxOf(call_result).skipNds != c.skipNds && !released[box(ctxOf(call_result))]
 //@   -- assumed: a walk on another pooled context leaves this context's buffers alone (the pool never hands out a context in use)
 //@   assume-at after lookupByPath#1 : sub-walk-frame: stackOK(c, path) && stackMono(c) && stackTop(c, paramCnt) && paramCnt <= len(*c.params) && paramCnt <= charsMatched && !released[box(c)] && (lazy ==> len(*c.params) <= old(len(*c.params)))
@@ -48,6 +48,12 @@ package fox
 //@   ensures leaf: result0 != nil ==> result0.route != nil
 //@   ensures live: !released[box(c)]
 //@   ensures lazy-len: lazy ==> len(*c.params) <= old(len(*c.params))
+//@   -- every sub-context taken from the tree's pool is put back on every path (a leaked context is an allocation on a later request)
+//@   ensures @C16,C01 pool-balance: poolOut[&tree.ctx] == old(poolOut[&tree.ctx])
+//@   loop 1: invariant @C16,C01 pool-balance: poolOut[&tree.ctx] == old(poolOut[&tree.ctx])
+//@   loop 2: invariant @C16,C01 pool-balance: poolOut[&tree.ctx] == old(poolOut[&tree.ctx])
+//@   loop 3: invariant @C16,C01 pool-balance: poolOut[&tree.ctx] == old(poolOut[&tree.ctx]) + 1
+//@   loop 4: invariant @C16,C01 pool-balance: poolOut[&tree.ctx] == old(poolOut[&tree.ctx])
 //@   loop 1: invariant current != nil && 0 <= charsMatched && charsMatched <= len(path) && (charsMatched < len(path) ==> paramKeyCnt == 0) && paramCnt <= len(*c.params)
 //@   loop 1: invariant at-end: charsMatched == len(path) ==> 0 <= charsMatchedInNodeFound && charsMatchedInNodeFound <= len(current.key)
 //@   loop 1: invariant stack: stackOK(c, path) && stackMono(c) && stackTop(c, paramCnt)
@@ -90,12 +96,18 @@ package fox
 //@   requires safety-live: !released[box(c)]
 //@   requires safety-wf: heapWF()
 //@   requires params-empty: !lazy ==> len(*c.params) == 0
-//@   modifies C[Params], C[skippedNodes], E[Param], E[skippedNode], released
+//@   modifies C[Params], C[skippedNodes], E[Param], E[skippedNode], released, poolOut
 //@   assume-at after (*Pool).Get#1 : pool-discipline: dyntypeIs(call_result, *cTx) && subCtxOK(ctxOf(call_result), c)
 //@   -- assumed: a walk on another pooled context leaves this context's buffers alone (the pool never hands out a context in use)
 //@   assume-at after lookupByPath#1 : sub-walk-frame: stackOK(c, host) && stackMono(c) && hasSkpNds == (len(*c.skipNds) > 0) && !released[box(c)] && (lazy ==> len(*c.params) <= old(len(*c.params)))
 //@   assert-at store-local n : @C01,C08,C09 first-candidate: n == nil && new_value != nil
 //@   assert-at store-local tsr : @C01,C08,C09 raised-once: !tsr && new_value
+//@   ensures @C16,C01 pool-balance: poolOut[&tree.ctx] == old(poolOut[&tree.ctx])
+//@   loop 1: invariant @C16,C01 pool-balance: poolOut[&tree.ctx] == old(poolOut[&tree.ctx])
+//@   loop 2: invariant @C16,C01 pool-balance: poolOut[&tree.ctx] == old(poolOut[&tree.ctx]) + 1
+//@   loop 3: invariant @C16,C01 pool-balance: poolOut[&tree.ctx] == old(poolOut[&tree.ctx]) + 1
+//@   loop 4: invariant @C16,C01 pool-balance: poolOut[&tree.ctx] == old(poolOut[&tree.ctx]) + 1
+//@   loop 5: invariant @C16,C01 pool-balance: poolOut[&tree.ctx] == old(poolOut[&tree.ctx]) + 1
 //@   ensures tsr-node: result1 ==> result0 != nil
 //@   ensures leaf: result0 != nil ==> result0.route != nil
 //@   ensures live: !released[box(c)]
